@@ -373,6 +373,93 @@ Definition points (ends glyph_data : list Z) : list point :=
       end
   end.
 
+(* ------------------------------------------------------------------ *)
+(* glyf.rs: SimpleGlyph::read_points_fast::<i32> — the reader skrifa draws with.
+   Results: FOk [(x, y, flag)] / FErrLen = Err(InvalidArrayLen) / FErrOob = Err(OutOfBounds).
+   Slice indexing `flags[i]`, `flags[i..i + count]` cannot go out of bounds (`while i < n_points` with
+   n = flags.len(), count <= n - i), so there is no panic outcome. *)
+Inductive fres := FOk (pts : list (Z * Z * Z)) | FErrLen | FErrOob.
+Definition w32 (z : Z) : Z := (z + 2147483648) mod 4294967296 - 2147483648.     (* i32::wrapping_add result *)
+
+(* the flag loop (since /repo 6f0a45e): `while i < n_points { let flag_bits = flags_iter.next().ok_or(OutOfBounds)?; ..}`
+   with flags_iter over ALL remaining bytes of glyph_data.  [fd] = what is left of flags_iter,
+   [left] = n_points - i.  Some (k, w): k bytes consumed (= read_flags_bytes), w = the flags written to
+   flags[i..] in order (always exactly [left] of them); None = Err(OutOfBounds) from either `next()`.
+   `count = (next? + 1).min(n_points - i)`. *)
+Fixpoint fast_flags (fd : list Z) (left : Z) : option (Z * list Z) :=
+  if left <=? 0 then Some (0, []) else                      (* while i < n_points *)
+  match fd with
+  | [] => None
+  | b :: rest =>
+      if has b REPEAT then
+        match rest with
+        | [] => None
+        | r :: rest' =>
+            let count := Z.min (r + 1) left in
+            match fast_flags rest' (left - count) with
+            | None => None
+            | Some (k, w) => Some (2 + k, repeat b (Z.to_nat count) ++ w)
+            end
+        end
+      else
+        match fast_flags rest (left - 1) with
+        | None => None
+        | Some (k, w) => Some (1 + k, b :: w)
+        end
+  end.
+
+(* one coordinate pass over `flags.iter().zip(points)`: `cursor.read::<u8>()?` / `read::<i16>()?`,
+   `x = x.wrapping_add(delta)` in i32.  Returns (coordinates, rest of the cursor); None = Err(OutOfBounds) *)
+Fixpoint fast_coords (short_bit same_bit : Z) (flags : list Z) (data : list Z) (cur : Z) : option (list Z * list Z) :=
+  match flags with
+  | [] => Some ([], data)
+  | f :: r =>
+      let rd :=
+        if has f short_bit then
+          match data with b :: d' => Some (if has f same_bit then b else - b, d') | [] => None end
+        else if negb (has f same_bit) then
+          match data with a :: b :: d' => Some (s16 (rd16 a b), d') | _ => None end
+        else Some (0, data) in
+      match rd with
+      | None => None
+      | Some (delta, d') =>
+          let cur' := w32 (cur + delta) in
+          match fast_coords short_bit same_bit r d' cur' with
+          | None => None
+          | Some (cs, d'') => Some (cur' :: cs, d'')
+          end
+      end
+  end.
+
+Fixpoint zip3 (xs ys fs : list Z) : list (Z * Z * Z) :=
+  match xs, ys, fs with
+  | x :: xr, y :: yr, f :: fr => (x, y, f) :: zip3 xr yr fr
+  | _, _, _ => []
+  end.
+
+(* SimpleGlyph::num_points *)
+Definition num_points (ends : list Z) : Z := match ends with [] => 0 | _ => last ends 0 + 1 end.
+
+(* read_points_fast(points, flags): n = num_points(), data = glyph_data(), plen = points.len(),
+   fl0 = the caller's flags slice (since /repo 6f0a45e only its length matters: the loop either writes all
+   n flags or returns Err(OutOfBounds), so every flag the coordinate passes read was written by the loop).
+   `point_flags.0 &= ON_CURVE` (no spec_next). *)
+Definition read_points_fast (n : Z) (data : list Z) (plen : Z) (fl0 : list Z) : fres :=
+  if negb (plen =? n) || negb (zlen fl0 =? n) then FErrLen else
+  match fast_flags data n with                     (* read_array::<u8>(cursor.remaining_bytes()) *)
+  | None => FErrOob
+  | Some (rfb, flags) =>
+      let c := skipn (Z.to_nat rfb) data in                         (* cursor.advance_by(read_flags_bytes) *)
+      match fast_coords X_SHORT X_SAME_POS flags c 0 with
+      | None => FErrOob
+      | Some (xs, c1) =>
+          match fast_coords Y_SHORT Y_SAME_POS flags c1 0 with
+          | None => FErrOob
+          | Some (ys, _) => FOk (zip3 xs ys (map (fun f => Z.land f 1) flags))
+          end
+      end
+  end.
+
 (* write-fonts simple.rs: FromObjRef — contours rebuilt from end points; `end - last_end` is usize
    arithmetic (None = panic on decreasing end points) *)
 Fixpoint split_contours (last_end : Z) (ends : list Z) (pts : list point) : option (list (list point)) :=
@@ -679,13 +766,39 @@ Definition ser_rcomp (c : rcomp) : list Z :=
 
 (* the decoded view of a byte string as lists of numbers:
    [[1]] = ReadError;
-   [[2]; nc::bbox; ends; instr; [ptag]; dxs; dys; ons]  (ptag 1; the harness writes 0 if points() panicked)
-   [[3]; bbox; comps; [itag]; instr] *)
+   [[2]; nc::bbox; ends; instr; [ptag]; dxs; dys; ons] ++ ser_fast_glyph  (ptag 1; the harness writes 0 if points() panicked)
+   [[3]; bbox; comps; [itag]; instr]   (ser_decode, below) *)
+(* read_points_fast on the same glyph: the harness hands it a DIRTY flags slice (pattern below, indexed by
+   point number and total length) and a points slice of length n; then once more with n + 1 points.
+   [[tag]; dxs; dys; flags; [tag of the wrong-length call]]: tag 4 Ok, 1 InvalidArrayLen, 2 OutOfBounds
+   (harness: 0 panic, 3 any other error) *)
+Fixpoint dirty_go (k : nat) (i : Z) : list Z :=      (* index kept in Z: Z.of_nat on big nats is linear *)
+  match k with
+  | O => []
+  | S k' => nth (Z.to_nat (i mod 5)) [0; 54; 18; 36; 191] 0 :: dirty_go k' (i + 1)
+  end.
+Definition dirty_flags (len n : Z) : list Z := dirty_go (Z.to_nat n) len.   (* flag i = PAT[(i + len) mod 5] *)
+Fixpoint rel3 (x y : Z) (pts : list (Z * Z * Z)) : list Z * list Z * list Z :=
+  match pts with
+  | [] => ([], [], [])
+  | (px, py, f) :: r => let '(a, b, c) := rel3 px py r in ((px - x) :: a, (py - y) :: b, f :: c)
+  end.
+Definition fres_tag (r : fres) : Z := match r with FOk _ => 4 | FErrLen => 1 | FErrOob => 2 end.
+Definition ser_fast_glyph (d : list Z) : list (list Z) :=
+  match read_simple d with
+  | None => []
+  | Some (_, _, ends, _, gd) =>
+      let n := num_points ends in
+      let fl0 := dirty_flags (zlen d) n in
+      let r := read_points_fast n gd n fl0 in
+      let '(a, b, c) := match r with FOk pts => rel3 0 0 pts | _ => ([], [], []) end in
+      [[fres_tag r]; a; b; c; [fres_tag (read_points_fast n gd (n + 1) fl0)]]
+  end.
 Definition ser_decode (d : list Z) : list (list Z) :=
   match read_glyph d with
   | None => [[1]]
   | Some (RSimple nc bb ends ins p) =>
-      let '(a, b, c) := rel_points 0 0 p in [[2]; nc :: bb; ends; ins; [1]; a; b; c]
+      let '(a, b, c) := rel_points 0 0 p in [[2]; nc :: bb; ends; ins; [1]; a; b; c] ++ ser_fast_glyph d
   | Some (RComposite bb cs ins) =>
       [[3]; bb; flat_map ser_rcomp cs] ++
       (match ins with None => [[0]; []] | Some i => [[1]; i] end)
